@@ -74,6 +74,8 @@ def run_case(case, ctx):
     if rng.random() < 0.3:
         opts.update(pos_offset=float(rng.choice([2e4, 5e4])), dtype_pos='float32', ties=False)   # large absolute float32 coordinates
     opts['probes'] = bool(rng.random() < 0.3)       # a probe table must not influence the channel choice (shank only)
+    if opts['wm'] and case['seed'][-1] % 6 == 2:
+        opts['wm_scale'] = 1e8
     if sparse:
         opts['mid_pad'] = 0.4
     else:
@@ -116,6 +118,13 @@ def _dense(m, spec, desc, ctx, rng):
     nc = spec.n_channels
     scaling = float(spec.notes.get('template_scaling') or 1.0)
     for t in range(spec.n_templates):
+        # other read-only queries and refused requests in between: none of them may change what the records are
+        if t % 2 == 0:
+            call(m.get_amplitudes_true)
+            call(lambda: m.templates_channels)
+        call(m.get_template, spec.n_templates + 5, amplitude_threshold=0.9)
+        call(m.get_template, t, channel_ids=[nc + 3], amplitude_threshold=0.9)
+        ctx.mon('interleaved_queries_and_refusals')
         for ncl in (4, 12):
             m.n_closest_channels = ncl
             for thr in (None, 0, .3, .5, .7, 1):
